@@ -218,6 +218,7 @@ Proof.
   - (* Disable *) break_step E; apply (Inv_frame cap tr s); auto.
   - (* Enable *) break_step E; apply (Inv_frame cap tr s); auto.
   - (* Discard *) discriminate E.
+  - (* ApiUnqueued *) discriminate E.
 Qed.
 
 Theorem Inv_run cap tr : forall s, run cap init tr = Some s -> Inv cap tr s.
